@@ -332,12 +332,19 @@ def run_design(ctx):
     conf = pd.DataFrame({f'cf{i}': rng.standard_normal(n_vols) for i in range(n_conf)}) if n_conf else None
     if conf is not None and rng.integers(2):
         conf['deriv'] = np.r_[np.nan, rng.standard_normal(n_vols - 1)]    # derivative columns have n/a first
+    if conf is not None and rng.integers(2):
+        # a flag column stored as booleans (motion outliers): a confound column like any other
+        flag = rng.random(n_vols) < 0.2
+        flag[:2] = [True, False]
+        conf['outlier'] = flag
+        n_conf += 1
     sig = dict(importer='design', confounds=n_conf > 0)
     wit = lambda **k: dict(events=events.to_dict('list'), tr=tr, n_vols=n_vols, n_conf=n_conf, **k)  # noqa: E731
     ok, out = ctx.guarded('design_matrix', sig, make_design_matrix, events, tr, n_vols, conf, data=wit)
     if not ok:
         return
     dm, mask, dof = out
+    dm = np.asarray(dm, dtype=float)     # (a table mixing float and bool columns comes back as an object array)
     ctx.case('design_matrix', sig, sample={'tr': tr, 'n_vols': n_vols, 'conditions': list(dict.fromkeys(order))})
     first = list(dict.fromkeys(order))
     n_cols = n_cond + n_conf
